@@ -450,4 +450,134 @@ example (sq : Rat → Rat) : (findRoot (fun x => some (x - 1)) sq 1 2 (1 / 10)).
   have h := (findRoot_end_zero (fun x => some (x - 1)) sq 1 2 (1 / 10) 0 1 (by norm_num) (by norm_num)).1 rfl
   rw [h.1]; norm_num
 
+
+/-! ## The decision table of the end-value checks -/
+
+/-- class of the value of the user function at a bracket end (`none` = NaN) -/
+inductive EndVal where
+  | neg | pos | zero | nan
+  deriving DecidableEq, Repr
+
+def classify : Option Rat → EndVal
+  | none => .nan
+  | some v => if v < 0 then .neg else if v = 0 then .zero else .pos
+
+/-- what the checks before the loop decide -/
+inductive Guard where
+  | diagNaN            -- "Function returns nan at the brackets", exit
+  | diagNoSignChange   -- "f(xLeft) * f(xRight) > 0", exit
+  | retLeft            -- return xLeft
+  | retRight           -- return xRight
+  | enterLoop          -- Ridder's loop
+  deriving DecidableEq, Repr
+
+/-- the decision table: NaN at either end wins over everything (also over an exact zero at the other
+    end); then a zero end is returned, the left one first; then equal signs stop with the diagnostic. -/
+def guardTable : EndVal → EndVal → Guard
+  | .nan, _ => .diagNaN
+  | _, .nan => .diagNaN
+  | .zero, _ => .retLeft
+  | _, .zero => .retRight
+  | .neg, .neg => .diagNoSignChange
+  | .pos, .pos => .diagNoSignChange
+  | .neg, .pos => .enterLoop
+  | .pos, .neg => .enterLoop
+
+/-- **findRoot_guard_table**: for every user function, square root, rounding and iteration budget the
+    checks before the loop follow `guardTable` on the classes of the two end values; in particular
+    the run stops with the NaN diagnostic whenever either end value is NaN, whatever the other is.
+    In the four non-loop cases exactly the two ends are evaluated. -/
+theorem findRoot_guard_table (f : Rat → Option Rat) (sq rnd : Rat → Rat) (xl xr acc : Rat) (fuel : Nat) :
+    let lo := min xl xr
+    let hi := max xl xr
+    let R := findRootR f sq rnd xl xr acc fuel
+    match guardTable (classify (f lo)) (classify (f hi)) with
+    | .diagNaN => R.out = .errNaN ∧ R.evals = [lo, hi]
+    | .diagNoSignChange => R.out = .errNoSignChange ∧ R.evals = [lo, hi]
+    | .retLeft => R.out = .root lo ∧ R.evals = [lo, hi]
+    | .retRight => R.out = .root hi ∧ R.evals = [lo, hi]
+    | .enterLoop => ∃ fl fr, f lo = some fl ∧ f hi = some fr ∧ fl * fr < 0 ∧
+        R.out = (loop f sq rnd acc fuel lo hi fl fr result0).out := by
+  intro lo hi R
+  have hR : R = findRootR f sq rnd xl xr acc fuel := rfl
+  unfold findRootR at hR
+  simp only [lo_eq_min, hi_eq_max] at hR
+  change R = (match f lo, f hi with
+      | some fl, some fr =>
+        if fl * fr ≥ 0 then
+          if fl = 0 then { out := .root lo, evals := [lo, hi], heads := [] }
+          else if fr = 0 then { out := .root hi, evals := [lo, hi], heads := [] }
+          else { out := .errNoSignChange, evals := [lo, hi], heads := [] }
+        else
+          let R := loop f sq rnd acc fuel lo hi fl fr result0
+          { out := R.out, evals := lo :: hi :: R.evals, heads := R.heads }
+      | _, _ => { out := .errNaN, evals := [lo, hi], heads := [] }) at hR
+  cases hl : f lo with
+  | none =>
+    rw [hl] at hR
+    simp only [classify, guardTable]
+    rw [hR]; exact ⟨rfl, rfl⟩
+  | some fl =>
+    cases hr : f hi with
+    | none =>
+      rw [hl, hr] at hR
+      have : guardTable (classify (some fl)) (classify none) = .diagNaN := by
+        simp only [classify]; split_ifs <;> rfl
+      rw [this, hR]; exact ⟨rfl, rfl⟩
+    | some fr =>
+      rw [hl, hr] at hR
+      simp only at hR
+      rcases lt_trichotomy fl 0 with h1 | h1 | h1
+      · rcases lt_trichotomy fr 0 with h2 | h2 | h2
+        · have hc : guardTable (classify (some fl)) (classify (some fr)) = .diagNoSignChange := by
+            simp [classify, h1, h2, guardTable]
+          have hp : fl * fr ≥ 0 := le_of_lt (mul_pos_of_neg_of_neg h1 h2)
+          rw [hc, hR, if_pos hp, if_neg (ne_of_lt h1), if_neg (ne_of_lt h2)]; exact ⟨rfl, rfl⟩
+        · subst h2
+          have hc : guardTable (classify (some fl)) (classify (some 0)) = .retRight := by
+            simp [classify, h1, guardTable]
+          rw [hc, hR, if_pos (by simp), if_neg (ne_of_lt h1), if_pos rfl]; exact ⟨rfl, rfl⟩
+        · have hc : guardTable (classify (some fl)) (classify (some fr)) = .enterLoop := by
+            simp [classify, h1, not_lt.mpr (le_of_lt h2), (ne_of_gt h2), guardTable]
+          have hp : ¬ fl * fr ≥ 0 := not_le.mpr (mul_neg_of_neg_of_pos h1 h2)
+          rw [hc, hR, if_neg hp]
+          exact ⟨fl, fr, rfl, rfl, mul_neg_of_neg_of_pos h1 h2, rfl⟩
+      · subst h1
+        have hc : guardTable (classify (some 0)) (classify (some fr)) = .retLeft := by
+          simp only [classify]; split_ifs <;> simp_all [guardTable]
+        rw [hc, hR, if_pos (by simp), if_pos rfl]; exact ⟨rfl, rfl⟩
+      · rcases lt_trichotomy fr 0 with h2 | h2 | h2
+        · have hc : guardTable (classify (some fl)) (classify (some fr)) = .enterLoop := by
+            simp [classify, h2, not_lt.mpr (le_of_lt h1), (ne_of_gt h1), guardTable]
+          have hp : ¬ fl * fr ≥ 0 := not_le.mpr (mul_neg_of_pos_of_neg h1 h2)
+          rw [hc, hR, if_neg hp]
+          exact ⟨fl, fr, rfl, rfl, mul_neg_of_pos_of_neg h1 h2, rfl⟩
+        · subst h2
+          have hc : guardTable (classify (some fl)) (classify (some 0)) = .retRight := by
+            simp [classify, not_lt.mpr (le_of_lt h1), (ne_of_gt h1), guardTable]
+          rw [hc, hR, if_pos (by simp), if_neg (ne_of_gt h1), if_pos rfl]; exact ⟨rfl, rfl⟩
+        · have hc : guardTable (classify (some fl)) (classify (some fr)) = .diagNoSignChange := by
+            simp [classify, not_lt.mpr (le_of_lt h1), (ne_of_gt h1), not_lt.mpr (le_of_lt h2), (ne_of_gt h2), guardTable]
+          have hp : fl * fr ≥ 0 := le_of_lt (mul_pos h1 h2)
+          rw [hc, hR, if_pos hp, if_neg (ne_of_gt h1), if_neg (ne_of_gt h2)]; exact ⟨rfl, rfl⟩
+
+/-- the clause seeded change C02-k breaks: NaN at one end and an exact zero at the other still stops
+    with the NaN diagnostic -/
+theorem findRoot_nan_beats_zero (f : Rat → Option Rat) (sq rnd : Rat → Rat) (xl xr acc : Rat) (fuel : Nat)
+    (h : f (min xl xr) = none ∨ f (max xl xr) = none) :
+    (findRootR f sq rnd xl xr acc fuel).out = .errNaN := by
+  have t := findRoot_guard_table f sq rnd xl xr acc fuel
+  simp only at t
+  have hc : guardTable (classify (f (min xl xr))) (classify (f (max xl xr))) = .diagNaN := by
+    rcases h with h | h
+    · rw [h]; rfl
+    · rw [h]; cases classify (f (min xl xr)) <;> rfl
+  rw [hc] at t
+  exact t.1
+
+/-- non-vacuity: zero at the left end, NaN at the right end -/
+example (sq rnd : Rat → Rat) :
+    (findRootR (fun x => if x = 2 then none else some x) sq rnd 0 2 (1 / 10) 200).out = .errNaN :=
+  findRoot_nan_beats_zero _ sq rnd 0 2 (1 / 10) 200 (Or.inr (by norm_num))
+
 end Lp.C02
